@@ -579,6 +579,8 @@ class Folder:
                 return list(r) if meth != "get" else r
             if isinstance(recv, (set, frozenset)) and meth in ("union", "intersection"):
                 return getattr(recv, meth)(*self._elts(e.args, scope))
+            if isinstance(recv, ExtRef) and recv.name == "str" and meth == "maketrans":
+                return str.maketrans(*self._elts(e.args, scope))
             if isinstance(recv, ExtRef):
                 full = f"{recv.name}.{meth}"
                 args = self._elts(e.args, scope)
